@@ -82,8 +82,38 @@ func paramOf(req interface{}) int {
 
 // ---- line.Line
 type exLine struct {
-	l  *line.Line
-	wg *sync.WaitGroup
+	l      *line.Line
+	wg     *sync.WaitGroup
+	mu     sync.Mutex
+	ccs    map[int]*line.CallCtx // one CallCtx value per owner, reused across that owner's submissions
+	bodies map[int]bodyFn        // the shared Call function finds the callee by the parameter it is handed
+}
+
+// CallOwned: the owner re-submits its one CallCtx value with a new Param (exported fields, plain caller-side reuse; legal as
+// soon as the owner's previous AsyncCall has returned - the executor is documented to take function and param, not the value).
+func (e *exLine) CallOwned(ctx context.Context, id int, owner int, body bodyFn) (interface{}, error) {
+	e.mu.Lock()
+	if e.ccs == nil {
+		e.ccs, e.bodies = map[int]*line.CallCtx{}, map[int]bodyFn{}
+	}
+	cc := e.ccs[owner]
+	if cc == nil {
+		cc = line.NewCallCtx(func(_ context.Context, req interface{}) (interface{}, error) {
+			p := paramOf(req)
+			e.mu.Lock()
+			b := e.bodies[p]
+			e.mu.Unlock()
+			if b == nil {
+				return -1, nil
+			}
+			return b(0, p)
+		}, id)
+		e.ccs[owner] = cc
+	}
+	e.bodies[id] = body
+	e.mu.Unlock()
+	cc.Param = id
+	return e.l.AsyncCall(ctx, cc)
 }
 
 func newExLine(q int) *exLine {
